@@ -191,7 +191,8 @@ def judge_imported(ref, cfg, tags=None):
         if several tokens qualify (`s.s` puts both names on one position) one agreeing token suffices;
       * a declaration is identified by (candidate position, name) with the candidates of clangref.import_positions;
       * a use is a disagreement only if no candidate token names the right declaration and one names a position+name
-        that belongs to a *different* declaration of clang; everything else is counted as not judgeable."""
+        that belongs to a *different* declaration of clang which no other clang use at that token's position refers
+        to; everything else is counted as not judgeable."""
     st = {"var_uses": 0, "var_uses_linked_judged": 0, "var_uses_unlinked": 0, "var_uses_no_token": 0,
           "var_uses_unjudgeable": 0, "var_agree": 0, "_judged_var_lines": []}
     problems = []
@@ -208,6 +209,14 @@ def judge_imported(ref, cfg, tags=None):
 
     def dtag(pos):
         return _tagname(tags, pos[0], "line%d" % pos[0]) if pos else "?"
+
+    # what clang expects at a token position: the targets of ALL its uses that may own a token there (`s.s` puts two
+    # names on one position, a template and its instantiations repeat every use at the same source position)
+    expected = {}
+    for u in ref.uses:
+        if u.name:
+            for p in {(u.line, u.col), (u.bline, u.bcol)}:
+                expected.setdefault((p, u.name), set()).add(ref.canon(u.target))
 
     for u in ref.uses:
         if not u.name:
@@ -236,8 +245,8 @@ def judge_imported(ref, cfg, tags=None):
             cls = named.get(key)
             if cls and target in cls:
                 agree = True
-            elif cls:
-                other = key[0]
+            elif cls and not (cls & expected.get(((int(a.get("linenr")), int(a.get("column"))), u.name), set())):
+                other = key[0]      # names a declaration that no clang use at this position refers to
         use_t = tags.get(u.line) if tags else None
         if agree:
             st["var_uses_linked_judged"] += 1
